@@ -844,11 +844,15 @@ def run(ctx):
         reported.add(key)
         ctx.violation(key, what, {"harness": H, "input_line": line, "group": group, "observed": h.strip()[:500], "model": d.strip()[:500],
                                   "sanitizer_log_tail": (log or "")[-1500:]})
-    if corr_bad and not ctx.violations:
-        key, what, line, h, d = corr_bad[0]
-        ctx.violation(key, "model and implementation disagree on %d configuration(s) satisfying the precondition, no abort observed: %s" % (len(corr_bad), what),
+    seen_corr = set()
+    for key, what, line, h, d in corr_bad:
+        if key in seen_corr:
+            continue
+        seen_corr.add(key)
+        n_same = sum(1 for c in corr_bad if c[0] == key)
+        ctx.violation(key, "model and implementation disagree on %d configuration(s) satisfying the precondition, no abort observed: %s" % (n_same, what),
                       {"harness": H, "input_line": line, "observed": h.strip()[:500], "model": d.strip()[:500],
-                       "all_disagreeing_inputs": [c[2] for c in corr_bad[:50]]}, no_input=True)
+                       "all_disagreeing_inputs": [c[2] for c in corr_bad if c[0] == key][:50]}, no_input=True)
 
     if ctx.tier == "thorough" and not ctx.replay:
         bad = vlib.leanchecker(LEAN_MODULES)
